@@ -1,4 +1,5 @@
 PROP = dict(
+    coq=["Stage/PassHarness.vo"],
     legs=[
         dict(driver="pass", quick=1500, thorough=30000, shard=50, noshrink=True,
              monitors=["finished_exactly_once", "wellformed_at_stage_boundaries", "finish_iff_tree_done",
